@@ -715,6 +715,17 @@ func (g *gram) checksig() bool {
 		pub = key(0).Compressed()
 	}
 	nonEmptyFail := h != nil && !valid
+	if g.sv == svTap && rapid.IntRange(0, 9).Draw(t, "unknownPubkeyType") == 9 {
+		// BIP342: a key that is neither 0 nor 32 bytes long makes any
+		// non-empty signature pass (unless discouraged by policy)
+		pub = rapid.SampledFrom([][]byte{{2}, fill(33, 2), fill(31, 3), fill(64, 4)}).Draw(t, "unknownPub")
+		g.note("unknown-pubkey-type")
+		valid = h != nil
+		nonEmptyFail = false
+		if g.flags&ms.DiscourageUpgradablePubkeyType != 0 {
+			g.dead = true
+		}
+	}
 	if g.sv == svTap && rapid.IntRange(0, 2).Draw(t, "useAdd") == 0 {
 		n := int64(rapid.IntRange(-1, 3).Draw(t, "addend"))
 		g.pushNum(n)
